@@ -1054,6 +1054,31 @@ def clause_h(ctx: Context, idx) -> None:
                     "            return self._cache[1]\n        return 1\n    def other(self, o):\n        return self._m is None or type(self) is type(o)\n")
     if [(f.name) for f, _, _ in identity_keyed(fx2)] != ["calc"]:
         raise AnalysisError("C11h: the identity-key rule does not behave on its inline fixture")
+    # a Generator object is shared by reference (Config.copy hands the same rng to simulators and states): it is replaced, never re-seeded
+    # in place - an in-place re-seed changes the stream of every holder, so a seeded simulator depends on what was configured after it
+    def reseeds(tree: ast.AST) -> List[ast.AST]:
+        out = []
+        for a in ast.walk(tree):
+            if isinstance(a, (ast.Assign, ast.AugAssign)):
+                for t in (a.targets if isinstance(a, ast.Assign) else [a.target]):
+                    if isinstance(t, ast.Attribute) and t.attr == "state" and isinstance(t.value, ast.Attribute) and t.value.attr == "bit_generator":
+                        out.append(a)
+            if isinstance(a, ast.Call) and isinstance(a.func, ast.Attribute) and a.func.attr in ("__setstate__", "_legacy_seeding") \
+                    and any(isinstance(x_, (ast.Attribute, ast.Name)) and "rng" in norm(x_) for x_ in [a.func.value]):
+                out.append(a)
+        return out
+    fx3 = ast.parse("def f(self, rng):\n    self.rng.bit_generator.state = rng.bit_generator.state\ndef g(self, rng):\n    self.rng = rng\n")
+    if [len(reseeds(f_)) for f_ in fx3.body] != [1, 0]:
+        raise AnalysisError("C11h: the in-place re-seed rule does not behave on its inline fixture")
+    for mname, m in sorted(idx.modules.items()):
+        if not mname.startswith("piquasso."):
+            continue
+        for a in reseeds(m.tree):
+            n_mod += 1
+            ctx.violation("C11a", f"{mname}|generator re-seeded in place|{norm(a)[:50]}", m.path, a.lineno,
+                          f"`{norm(a)[:80]}` re-seeds an existing Generator object in place; the object is shared by reference with the copies of the "
+                          f"configuration held by simulators and states, so an already seeded simulator draws the stream of a seed that was set later",
+                          norm(a)[:100])
     fhits = module_caches(ftree)
     if not any(h[3] == "instruction._params['mean_photon_number']" for h in fhits):
         raise AnalysisError("C11h: the module-level positive fixture in stubs/memo_key_fixture.py is no longer matched")
